@@ -790,6 +790,11 @@ func (env *SpecEnv) evalField(e *Expr) (Val, error) {
 	if !ok {
 		return Val{}, fmt.Errorf("%s: %s is not a struct", e, bt)
 	}
+	if x.eng.opaqueStruct(bt) {
+		// the executor ignores stores to (and havocs loads of) such fields: a clause about them would
+		// speak about a heap the code never writes
+		return Val{}, fmt.Errorf("%s: %s is an opaque library struct (its fields are not modelled; list it in transparentExtern)", e, bt)
+	}
 	// search field (including promoted fields through embedded structs, one level)
 	for i := 0; i < st.NumFields(); i++ {
 		f := st.Field(i)
